@@ -244,6 +244,33 @@ def zite(g, a, b):
 _MERGED_TAGS = {}
 
 
+def over_const_leaves(term, f, limit=16):
+    """If `term` is an if-then-else tree whose leaves are bit-vector constants (at most `limit` of them), return the same
+    tree with f(leaf) at the leaves (arithmetic by a symbolic operand that only takes a few constant values - an alignment,
+    a size class - becomes arithmetic by constants, which bit-blasts far better); otherwise None."""
+    t = zsimp(term) if is_z3(term) else term
+    if not is_z3(t) or not z3.is_bv(t) or z3.is_bv_value(t):
+        return None
+    count = [0]
+
+    def ok(x):
+        if z3.is_bv_value(x):
+            count[0] += 1
+            return count[0] <= limit
+        return z3.is_app_of(x, z3.Z3_OP_ITE) and ok(x.arg(1)) and ok(x.arg(2))
+    if not ok(t):
+        return None
+    memo = {}
+
+    def go(x):
+        k = x.get_id()
+        if k not in memo:
+            memo[k] = f(x) if z3.is_bv_value(x) else z3.If(x.arg(0), go(x.arg(1)), go(x.arg(2)))
+        return memo[k]
+    return go(t)
+
+
+
 def ite_val(g, a, b, memo=None):
     """Structured if-then-else (memoised on object identity so that shared sub-values stay shared)."""
     if same(a, b):
@@ -1305,8 +1332,46 @@ class Executor:
         if k == 'adt':
             return self.eval_adt(st, frame, fn, rv)
         if k == 'closure':
-            return Agg([self.eval_operand(st, frame, fn, o) for _, o in rv[2]], rv[1])
+            vals = [self.eval_operand(st, frame, fn, o) for _, o in rv[2]]
+            need = self._closure_captures(rv[1])
+            if need is not None and need > len(vals):
+                # rustc's MIR printer names closure fields after the captured variable; two disjoint captures of the same
+                # variable (`identifier.name`, `identifier.location`) print as ONE field.  The capture temporaries are
+                # numbered consecutively right before the aggregate: recover the dropped operands from them, fail closed
+                # if that shape is not found.
+                ops = [o for _, o in rv[2]]
+                if not ops or ops[0][0] not in ('move', 'copy') or ops[0][1][0] != 'local':
+                    raise Unsupported("closure %s: %d captures printed, %d used by its body" % (rv[1][:60], len(vals), need))
+                first = ops[0][1][1]
+                vals = []
+                for n in range(first, first + need):
+                    v = st.mem.get((frame, n))
+                    if v is None or not isinstance(v, (ValRef, PlaceRef)) and not fn.locals.get(n, '').startswith('&'):
+                        raise Unsupported("closure %s: capture _%d not found" % (rv[1][:60], n))
+                    vals.append(v)
+            return Agg(vals, rv[1])
         raise Unsupported("rvalue %r" % (rv,))
+
+    def _closure_captures(self, tag):
+        """Number of captured fields the body of the closure uses (highest `_1.N` / `(*_1).N` + 1), None if unknown."""
+        cache = getattr(self, '_capture_counts', None)
+        if cache is None:
+            cache = self._capture_counts = {}
+        if tag not in cache:
+            n = None
+            for name, spans in self.dump.fn_index.items():
+                if '{closure#' not in name:
+                    continue
+                f = self.dump.get(name)
+                if f.params and tag in f.params[0][1]:
+                    text = self.dump.text_of(name) if hasattr(self.dump, 'text_of') else None
+                    if text is None:
+                        break
+                    idx = [int(x) for x in re.findall(r'\(\*?_1\)?\.(\d+): ', text)] + [int(x) for x in re.findall(r'\(_1\.(\d+): ', text)]
+                    n = (max(idx) + 1) if idx else 0
+                    break
+            cache[tag] = n
+        return cache[tag]
 
     def eval_cast(self, st, frame, fn, rv):
         op, ty, kind = rv[1], rv[2], rv[3]
@@ -1390,11 +1455,14 @@ class Executor:
         if op in ('Sub', 'SubUnchecked'):
             return a - b
         if op in ('Mul', 'MulUnchecked'):
-            return a * b
+            d = over_const_leaves(b, lambda c: a * c) or over_const_leaves(a, lambda c: c * b)
+            return d if d is not None else a * b
         if op == 'Div':
-            return (a / b) if signed else z3.UDiv(a, b)
+            d = over_const_leaves(b, lambda c: (a / c) if signed else z3.UDiv(a, c))
+            return d if d is not None else ((a / b) if signed else z3.UDiv(a, b))
         if op == 'Rem':
-            return z3.SRem(a, b) if signed else z3.URem(a, b)
+            d = over_const_leaves(b, lambda c: z3.SRem(a, c) if signed else z3.URem(a, c))
+            return d if d is not None else (z3.SRem(a, b) if signed else z3.URem(a, b))
         if op == 'BitAnd':
             return a & b
         if op == 'BitOr':
@@ -1432,10 +1500,16 @@ class Executor:
                 znot(zand(z3.BVSubNoOverflow(a, b), z3.BVSubNoUnderflow(a, b, True)))
             return Agg([r, ovf])
         if op == 'MulWithOverflow':
-            r = a * b
-            ovf = znot(z3.BVMulNoOverflow(a, b, signed)) if not signed else \
-                znot(zand(z3.BVMulNoOverflow(a, b, True), z3.BVMulNoUnderflow(a, b)))
-            return Agg([r, ovf])
+            def mul_ovf(x, y):
+                return znot(z3.BVMulNoOverflow(x, y, signed)) if not signed else \
+                    znot(zand(z3.BVMulNoOverflow(x, y, True), z3.BVMulNoUnderflow(x, y)))
+            for x, y in ((a, b), (b, a)):
+                r = over_const_leaves(y, lambda c: x * c)
+                if r is not None:
+                    # the overflow flag distributes in the same way (boolean leaves: build it as a 1-bit value)
+                    o = over_const_leaves(y, lambda c: z3.If(mul_ovf(x, c), bv(1, 1), bv(0, 1)))
+                    return Agg([r, o == bv(1, 1)])
+            return Agg([a * b, mul_ovf(a, b)])
         raise Unsupported("binop %s" % op)
 
     def interval(self, t):
